@@ -754,8 +754,10 @@ def stepRun (σ0 : St) (t : Nat) (inp : Nat) : Obs × St :=
        (σ.setTh t fun y => { y with aux := if σ0.ncons s = 1 then 1 else 0 }).goto t .dr1)
   | .dr1 =>
       let o := mkObs σ0 t .fsub (.ncons s) .sc (a := 1) (res := σ0.ncons s)
-      let σ1 := { σ with ncons := upd σ0.ncons s (σ0.ncons s - 1),
-                         cl := upd σ0.cl s ((σ0.cl s).erase (if x.outer = Outer.intoSingleFut then x.ng else g)) }
+      -- `unsubscribe` reports whether this decrement was the one that took the count from 1 to 0
+      let σ1 := ({ σ with ncons := upd σ0.ncons s (σ0.ncons s - 1),
+                          cl := upd σ0.cl s ((σ0.cl s).erase (if x.outer = Outer.intoSingleFut then x.ng else g)) }).setTh t
+                  fun y => { y with aux := if σ0.ncons s = 1 then 1 else 0 }
       if σ0.ncons s = 1 then (o, σ1.goto t .rr1) else (o, σ1.goto t (.u1 (.rmTok 1)))
   | .rr1 =>
       -- the replacement group is allocated right after this load
@@ -944,7 +946,7 @@ def callEntry (σ1 : St) (t : Nat) (o : Outer) (g ng ns : Nat) : St :=
       | .drop => if h_.sender then (σ1.setHd g fun y => { y with alive := false }).goto t .ds1
                  else (σ1.setHd g fun y => { y with alive := false }).goto t .dr1
       | .unsub => if h_.sender then (σ1.setHd g fun y => { y with alive := false }).goto t .ds1
-                  else (σ1.setHd g fun y => { y with alive := false }).goto t .un1
+                  else (σ1.setHd g fun y => { y with alive := false }).goto t .dr1
       | .intoSingle => σ1.goto t .isg
       | .intoSingleFut => (σ1.setHd ng fun y => { y with used := true }).goto t .cr1
       | .intoMultiFut => (σ1.setHd ng fun y => { y with used := true }).goto t .a1
